@@ -56,6 +56,7 @@ def reconstruct(r, scheme, server, host, root, path, query):
         if scheme in ("ws", "wss"):
             sc["type"] = "websocket"
         urls["asgi"] = URL(scope=sc)
+        urls["asgi-list-server"] = URL(scope=dict(sc, server=list(sc["server"])))  # the pair as a server that decodes its scopes from JSON / msgpack hands it over
         # ... and as the request objects hand it out
         from baize.asgi import HTTPConnection as AConn
         from baize.wsgi import HTTPConnection as WConn
@@ -267,7 +268,7 @@ def replacement(r, b, names):
             r.add("outcomes", tuple(names))
 
 
-QBASES = ["", "a=1", "a=1&a=2&b=3", "flag=&page=3", "a=%20&b", "b=2&a=1&b=4", "a=1&a=2&a=3&b=4", "a=1&b=2&a=3&a=4", "t=1%2B1&u=a+b&a=%2B", "k%2Bk=v&a=1"]
+QBASES = ["", "a=1", "a=1&a=2&b=3", "_=1700000000&a=1&a_=2&page_=1", "flag=&page=3", "a=%20&b", "b=2&a=1&b=4", "a=1&a=2&a=3&b=4", "a=1&b=2&a=3&a=4", "t=1%2B1&u=a+b&a=%2B", "k%2Bk=v&a=1"]
 
 
 def query_helpers(r):
@@ -286,7 +287,9 @@ def query_helpers(r):
             own += [{k: vals[-1]}, {k: vals[0]}]
         if len(dict(before)) >= 2:
             own.append({k: [v for kk, v in before if kk == k][-1] for k in dict(before)})
-        for kw in [{"a": "9"}, {"z": "1"}, {"a": 5, "b": ""}, {}, {"q": "1+1"}, {"a": "x+y z", "tz": "+02:00"}, {"z": "a/b?c:d@e,f;g"}, {"z": "50%+&=#"}] + own:
+        for kw in [{"a": "9"}, {"z": "1"}, {"a": 5, "b": ""}, {}, {"q": "1+1"}, {"a": "x+y z", "tz": "+02:00"}, {"z": "a/b?c:d@e,f;g"}, {"z": "50%+&=#"},
+                   # names that are not plain words: a lone underscore (the cache-buster), trailing and leading underscores, a keyword, capitals
+                   {"_": "42"}, {"page_": "3"}, {"a_": "1", "a": "2"}, {"q__": "x"}, {"_a": "1"}, {"class": "c", "from": "f"}, {"A": "1", "a": "2"}, {"__": ""}] + own:
             exp = list(before)
             for k, v in kw.items():
                 v = str(v)
@@ -297,9 +300,9 @@ def query_helpers(r):
                 else:
                     exp.append((k, v))
             cases.append(("include", kw, exp, lambda kw=kw: base.include_query_params(**kw)))
-        for kw in ({"a": "9"}, {"x": 1, "y": "2"}, {}, {"q": "1+1 2", "r": "+"}, {"q": "%2B&=;"}):
+        for kw in ({"a": "9"}, {"x": 1, "y": "2"}, {}, {"q": "1+1 2", "r": "+"}, {"q": "%2B&=;"}, {"_": "1", "a_": "2", "a": "3"}, {"class": "c", "b_": "1"}):
             cases.append(("replace", kw, [(k, str(v)) for k, v in kw.items()], lambda kw=kw: base.replace_query_params(**kw)))
-        for keys in (("a",), ("zz",), ("a", "b"), (), ("zz", "a"), ("zz", "b", "a"), ("a", "a"), ("a", "zz", "b"), ("b", "zz")):
+        for keys in (("a",), ("zz",), ("a", "b"), (), ("zz", "a"), ("zz", "b", "a"), ("a", "a"), ("a", "zz", "b"), ("b", "zz"), ("_",), ("a_",), ("a_", "a")):
             cases.append(("remove", list(keys), [p for p in before if p[0] not in keys], lambda keys=keys: base.remove_query_params(*keys)))
         for name, arg, exp, fn in cases:
             r.count("evaluations")
